@@ -215,9 +215,15 @@ func findRoute(
 		}
 
 		// Remove selected backend from list to avoid retrying it
-		for i, backend := range tryBackends {
+		// Remove the selected backend from the candidates. A route may list the same
+		// backend more than once (also in different spellings, e.g. with and without the
+		// default port): remove every entry that denotes it, so that one connection
+		// attempt tries each distinct backend at most once.
+		remaining := tryBackends[:0]
+		for _, backend := range tryBackends {
 			normalizedBackend, err := netutil.Parse(backend, src.RemoteAddr().Network())
 			if err != nil {
+				remaining = append(remaining, backend)
 				continue
 			}
 			normalizedAddr := normalizedBackend.String()
@@ -227,6 +233,7 @@ func findRoute(
 
 			normalizedSelected, err := netutil.Parse(backendAddr, src.RemoteAddr().Network())
 			if err != nil {
+				remaining = append(remaining, backend)
 				continue
 			}
 			selectedAddr := normalizedSelected.String()
@@ -234,11 +241,11 @@ func findRoute(
 				selectedAddr = net.JoinHostPort(normalizedSelected.String(), "25565")
 			}
 
-			if normalizedAddr == selectedAddr {
-				tryBackends = append(tryBackends[:i], tryBackends[i+1:]...)
-				break
+			if normalizedAddr != selectedAddr {
+				remaining = append(remaining, backend)
 			}
 		}
+		tryBackends = remaining
 
 		return backendAddr, newLog.WithValues("backendAddr", backendAddr), true
 	}
